@@ -157,7 +157,7 @@ def main(argv=None):
                     pj["twin_failed"] = pj.get("twin_failed", 0) + len(st.get("failed", []))
                     pj["paths"] = pj.get("paths", 0) + st.get("paths", 0)
                     total["twin_paths"] = total.get("twin_paths", 0) + st.get("paths", 0)
-                    total.setdefault("engine_errors", []).extend(st.get("engine_errors", []))
+                    total.setdefault("engine_errors", []).extend(e for e in st.get("engine_errors", []) if "path cap" not in e)
                     continue
                 merge_stats(pj, st)
                 pj["wall"] = pj.get("wall", 0) + st.get("wall", 0)
@@ -194,8 +194,13 @@ def main(argv=None):
     client = Client()
     os.makedirs(os.path.join(VERIF, "replay"), exist_ok=True)
     seen_keys = set()
+    per_label = {}
     for f in total.get("failed", []):
         req = f.get("request") or {}
+        lab = (req.get("kind"), f.get("label"))
+        per_label[lab] = per_label.get(lab, 0) + 1
+        if per_label[lab] > 25:          # replay at most 25 counterexamples per obligation label
+            continue
         if "error" in req or "kind" not in req:
             inconclusive.append(f"counterexample for {f['label']} in {f.get('job')} could not be concretised: {req.get('error')}")
             continue
